@@ -120,8 +120,8 @@ Proof.
 Qed.
 
 (* ---------- per-object views of the shared queue and log ---------- *)
-Lemma qstat_app sid a b : qstat sid (a ++ b) = qstat sid a ++ qstat sid b.
-Proof. unfold qstat. rewrite filter_app, map_app. reflexivity. Qed.
+Lemma qfilter_app sid a b : qfilter sid (a ++ b) = qfilter sid a ++ qfilter sid b.
+Proof. unfold qfilter. apply filter_app. Qed.
 
 Lemma calls_app sid a b : calls_of sid (a ++ b) = calls_of sid a ++ calls_of sid b.
 Proof. unfold calls_of. apply filter_app. Qed.
@@ -144,19 +144,19 @@ Proof.
   apply IH. intros e' He'. apply H. right; exact He'.
 Qed.
 
-Lemma qstat_none n q : (forall s st, In (s, st) q -> (s < n)%nat) -> forall sid, (n <= sid)%nat -> qstat sid q = [].
+Lemma qfilter_none n q : (forall x, In x q -> (q_sid x < n)%nat) -> forall sid, (n <= sid)%nat -> qfilter sid q = [].
 Proof.
-  intros H sid L. unfold qstat. induction q as [|[s st] q IH]; simpl; [reflexivity|].
-  assert (K := H s st (or_introl eq_refl)).
-  assert (Nat.eqb s sid = false) as -> by (apply Nat.eqb_neq; lia).
-  apply IH. intros s' st' H'. apply (H s' st'). right; exact H'.
+  intros H sid L. unfold qfilter. induction q as [|x q IH]; simpl; [reflexivity|].
+  assert (K := H x (or_introl eq_refl)).
+  assert (Nat.eqb (q_sid x) sid = false) as -> by (apply Nat.eqb_neq; lia).
+  apply IH. intros x' H'. apply H. right; exact H'.
 Qed.
 
 (* ---------- the global invariant ---------- *)
 Record G (w : world) : Prop := mkG {
   g_wait : forall p s, In (p, s) (w_waiting w) -> exists sb, nth_error (w_subs w) s = Some sb /\ s_pid sb = p;
   g_pids : NoDup (map s_pid (w_subs w));
-  g_queue : forall s st, In (s, st) (w_queue w) -> (s < length (w_subs w))%nat;
+  g_queue : forall x, In x (w_queue w) -> (q_sid x < length (w_subs w))%nat;
   g_log : forall e, In e (w_log w) -> log_ok (length (w_subs w)) e;
   g_kern : forall p k, a_find p (w_kern w) = Some k -> In p (map s_pid (w_subs w))
 }.
@@ -182,8 +182,8 @@ Proof.
   destruct (a_find q (w_waiting w)) as [sid|] eqn:W; constructor; simpl.
   - intros p s H. apply in_a_remove in H. exact (g_wait w Gw p s H).
   - exact (g_pids w Gw).
-  - intros s st' H. apply in_app_or in H as [H|[H|[]]]; [exact (g_queue w Gw s st' H)|].
-    injection H as <- <-. apply a_find_in in W. destruct (g_wait w Gw q sid W) as [sb [Hs _]].
+  - intros x H. apply in_app_or in H as [H|[<-|[]]]; [exact (g_queue w Gw x H)|].
+    simpl. apply a_find_in in W. destruct (g_wait w Gw q sid W) as [sb [Hs _]].
     exact (nth_error_lt _ _ _ Hs).
   - exact (g_log w Gw).
   - exact Hk.
@@ -204,47 +204,79 @@ Lemma fold_try_init ps : forall w, w_init (fold_left try_cleanup ps w) = w_init 
 Proof. induction ps as [|q ps IH]; intros w; simpl; [reflexivity|]. rewrite IH. apply try_init. Qed.
 
 (* ---------- registration ---------- *)
-Definition keeps_pid (mk : sub -> sub) : Prop := forall s, s_pid (mk s) = s_pid s.
-Lemma set_cb_keeps c : keeps_pid (set_cb c).
-Proof. intros s. reflexivity. Qed.
-Lemma add_fut_keeps l re : keeps_pid (add_fut l re).
-Proof. intros s. reflexivity. Qed.
+(* what wait_for_exit / set_exit_callback may do to the object before the callback is stored or queued *)
+Definition good_prep (prep : sub -> sub) : Prop :=
+  forall s, s_pid (prep s) = s_pid s /\ s_cb (prep s) = s_cb s /\ s_rc (prep s) = s_rc s.
+Lemma prep_plain_good : good_prep prep_plain.
+Proof. intros s. repeat split. Qed.
+Lemma prep_fut_good l : good_prep (prep_fut l).
+Proof. intros s. repeat split. Qed.
 
 Definition reg_mid (w : world) (sid : nat) (s' : sub) : world :=
   mkW (w_kern w) (upd_nth sid s' (w_subs w)) (a_set (s_pid s') sid (w_waiting w)) (w_queue w) true (w_log w).
+Definition reg_late (w : world) (sid : nat) (s' : sub) (c : cbk) (rc : Z) : world :=
+  mkW (w_kern w) (upd_nth sid s' (w_subs w)) (w_waiting w) (w_queue w ++ [QCall sid c rc]) (w_init w) (w_log w).
 
-Lemma register_eq w sid mk s : keeps_pid mk -> nth_error (w_subs w) sid = Some s ->
-  register w sid mk = try_cleanup (reg_mid w sid (mk s)) (s_pid s).
-Proof. intros K H. unfold register, reg_mid. rewrite H, K. reflexivity. Qed.
+Lemma register_eq w sid prep cbof s : good_prep prep -> nth_error (w_subs w) sid = Some s -> s_rc s = None ->
+  register w sid prep cbof = try_cleanup (reg_mid w sid (set_cb (cbof s) (prep s))) (s_pid s).
+Proof. intros K H N. unfold register, reg_mid. rewrite H, N. simpl. rewrite (proj1 (K s)). reflexivity. Qed.
+
+Lemma register_late_eq w sid prep cbof s rc : nth_error (w_subs w) sid = Some s -> s_rc s = Some rc ->
+  register w sid prep cbof = reg_late w sid (prep s) (cbof s) rc.
+Proof. intros H N. unfold register, reg_late. rewrite H, N. reflexivity. Qed.
+
+Lemma upd_G_core w sid s s' : G w -> nth_error (w_subs w) sid = Some s -> s_pid s' = s_pid s ->
+  (forall p x, In (p, x) (w_waiting w) -> exists sb, nth_error (upd_nth sid s' (w_subs w)) x = Some sb /\ s_pid sb = p) /\
+  map s_pid (upd_nth sid s' (w_subs w)) = map s_pid (w_subs w).
+Proof.
+  intros Gw Hs E. assert (L := nth_error_lt _ _ _ Hs). split.
+  - intros p x H. destruct (g_wait w Gw p x H) as [sb [H1 H2]].
+    destruct (Nat.eq_dec sid x) as [<-|N].
+    + exists s'. split; [apply nth_upd_same; exact L|]. rewrite Hs in H1. injection H1 as <-. congruence.
+    + exists sb. split; [rewrite nth_upd_other by exact N; exact H1|exact H2].
+  - exact (map_upd_same s_pid _ _ _ _ Hs E).
+Qed.
 
 Lemma reg_mid_G w sid s s' : G w -> nth_error (w_subs w) sid = Some s -> s_pid s' = s_pid s -> G (reg_mid w sid s').
 Proof.
   intros Gw Hs E. assert (L := nth_error_lt _ _ _ Hs).
-  assert (M : map s_pid (upd_nth sid s' (w_subs w)) = map s_pid (w_subs w)) by exact (map_upd_same s_pid _ _ _ _ Hs E).
+  destruct (upd_G_core w sid s s' Gw Hs E) as [Wt M].
   constructor; simpl.
   - intros p x H. apply in_a_set in H as [H|H].
     + injection H as -> ->. exists s'. split; [apply nth_upd_same; exact L|reflexivity].
-    + destruct (g_wait w Gw p x H) as [sb [H1 H2]].
-      destruct (Nat.eq_dec sid x) as [<-|N].
-      * exists s'. split; [apply nth_upd_same; exact L|]. rewrite Hs in H1. injection H1 as <-. congruence.
-      * exists sb. split; [rewrite nth_upd_other by exact N; exact H1|exact H2].
+    + exact (Wt p x H).
   - rewrite M. exact (g_pids w Gw).
-  - intros x st H. rewrite length_upd. exact (g_queue w Gw x st H).
+  - intros x H. rewrite length_upd. exact (g_queue w Gw x H).
   - intros e H. rewrite length_upd. exact (g_log w Gw e H).
   - intros p k H. rewrite M. exact (g_kern w Gw p k H).
 Qed.
 
-Lemma register_G w sid mk : keeps_pid mk -> G w -> G (register w sid mk).
+Lemma reg_late_G w sid s s' c rc : G w -> nth_error (w_subs w) sid = Some s -> s_pid s' = s_pid s -> G (reg_late w sid s' c rc).
+Proof.
+  intros Gw Hs E. assert (L := nth_error_lt _ _ _ Hs).
+  destruct (upd_G_core w sid s s' Gw Hs E) as [Wt M].
+  constructor; simpl.
+  - exact Wt.
+  - rewrite M. exact (g_pids w Gw).
+  - intros x H. rewrite length_upd. apply in_app_or in H as [H|[<-|[]]]; [exact (g_queue w Gw x H)|exact L].
+  - intros e H. rewrite length_upd. exact (g_log w Gw e H).
+  - intros p k H. rewrite M. exact (g_kern w Gw p k H).
+Qed.
+
+Lemma register_G w sid prep cbof : good_prep prep -> G w -> G (register w sid prep cbof).
 Proof.
   intros K Gw. destruct (nth_error (w_subs w) sid) as [s|] eqn:Hs.
-  - rewrite (register_eq w sid mk s K Hs). apply try_G. apply (reg_mid_G w sid s); [exact Gw|exact Hs|apply K].
+  - destruct (s_rc s) as [rc|] eqn:Rc.
+    + rewrite (register_late_eq w sid prep cbof s rc Hs Rc). apply (reg_late_G w sid s); [exact Gw|exact Hs|apply K].
+    + rewrite (register_eq w sid prep cbof s K Hs Rc). apply try_G.
+      apply (reg_mid_G w sid s); [exact Gw|exact Hs|]. simpl. apply K.
   - unfold register. rewrite Hs. exact Gw.
 Qed.
 
-Lemma register_len w sid mk : length (w_subs (register w sid mk)) = length (w_subs w).
+Lemma register_len w sid prep cbof : length (w_subs (register w sid prep cbof)) = length (w_subs w).
 Proof.
-  unfold register. destruct (nth_error (w_subs w) sid); [|reflexivity].
-  rewrite try_subs. simpl. apply length_upd.
+  unfold register. destruct (nth_error (w_subs w) sid) as [s|]; [|reflexivity].
+  destruct (s_rc s); [simpl; apply length_upd|]. rewrite try_subs. simpl. apply length_upd.
 Qed.
 
 (* ---------- _set_returncode ---------- *)
@@ -308,7 +340,7 @@ Proof.
       + exists s'. split; [apply nth_upd_same; exact L|]. rewrite Hs in H1. injection H1 as <-. congruence.
       + exists sb. split; [rewrite nth_upd_other by exact N; exact H1|exact H2].
     - rewrite M. exact (g_pids w Gw).
-    - intros x st' H. rewrite length_upd. exact (g_queue w Gw x st' H).
+    - intros x H. rewrite length_upd. exact (g_queue w Gw x H).
     - intros e H. rewrite length_upd. apply in_app_or in H as [H|H]; [exact (g_log w Gw e H)|exact (Hev e H)].
     - intros p k H. rewrite M. exact (g_kern w Gw p k H). }
   destruct (decode st) as [rc|].
@@ -319,4 +351,60 @@ Proof.
     + replace (w_log w) with (w_log w ++ []) by apply app_nil_r. apply Upd; [reflexivity|intros e []].
   - destruct Gw as [a b c d e]. constructor; simpl; auto.
     intros e' H. apply in_app_or in H as [H|[<-|[]]]; [exact (d e' H)|exact L].
+Qed.
+
+(* ---------- callback(returncode) for a late registration; one queue item ---------- *)
+Lemma late_call_len w sid c rc : length (w_subs (late_call w sid c rc)) = length (w_subs w).
+Proof.
+  unfold late_call. destruct (nth_error (w_subs w) sid) as [s|]; [|reflexivity].
+  destruct (invoke sid s c rc) as [s3 evs]. simpl. apply length_upd.
+Qed.
+
+Lemma late_call_queue w sid c rc : w_queue (late_call w sid c rc) = w_queue w.
+Proof.
+  unfold late_call. destruct (nth_error (w_subs w) sid) as [s|]; [|reflexivity].
+  destruct (invoke sid s c rc) as [s3 evs]. reflexivity.
+Qed.
+
+Lemma late_call_G w sid c rc : G w -> (sid < length (w_subs w))%nat -> G (late_call w sid c rc).
+Proof.
+  intros Gw L. unfold late_call.
+  destruct (nth_error (w_subs w) sid) as [s|] eqn:Hs; [|apply nth_error_None in Hs; lia].
+  pose proof (invoke_pid sid s c rc) as P. pose proof (invoke_log_ok (length (w_subs w)) sid s c rc L) as Q.
+  destruct (invoke sid s c rc) as [s3 evs]. simpl in P, Q.
+  destruct (upd_G_core w sid s s3 Gw Hs P) as [Wt M].
+  constructor; simpl.
+  - exact Wt.
+  - rewrite M. exact (g_pids w Gw).
+  - intros x H. rewrite length_upd. exact (g_queue w Gw x H).
+  - intros e H. rewrite length_upd. apply in_app_or in H as [H|H]; [exact (g_log w Gw e H)|exact (Q e H)].
+  - intros p k H. rewrite M. exact (g_kern w Gw p k H).
+Qed.
+
+Lemma run_item_len w x : length (w_subs (run_item w x)) = length (w_subs w).
+Proof. destruct x as [sid st|sid c rc]; cbn [run_item]; [apply (set_rc_len w (sid, st))|apply late_call_len]. Qed.
+Lemma run_item_queue w x : w_queue (run_item w x) = w_queue w.
+Proof. destruct x as [sid st|sid c rc]; cbn [run_item]; [apply (set_rc_queue w (sid, st))|apply late_call_queue]. Qed.
+Lemma run_item_G w x : G w -> (q_sid x < length (w_subs w))%nat -> G (run_item w x).
+Proof. destruct x as [sid st|sid c rc]; cbn [run_item q_sid]; intros; [apply set_rc_G|apply late_call_G]; assumption. Qed.
+
+Lemma fold_items_G q : forall w, G w -> (forall x, In x q -> (q_sid x < length (w_subs w))%nat) ->
+  G (fold_left run_item q w) /\ length (w_subs (fold_left run_item q w)) = length (w_subs w) /\
+  map s_pid (w_subs (fold_left run_item q w)) = map s_pid (w_subs w).
+Proof.
+  induction q as [|x q IH]; intros w Gw V; cbn [fold_left]; [split; [exact Gw|split; reflexivity]|].
+  assert (L : (q_sid x < length (w_subs w))%nat) by (apply V; left; reflexivity).
+  destruct (IH (run_item w x) (run_item_G w x Gw L)) as [A [B C]].
+  { intros x' H'. rewrite run_item_len. apply V. right; exact H'. }
+  split; [exact A|]. split; [exact (eq_trans B (run_item_len _ _))|].
+  rewrite C. clear - Gw L. destruct x as [sid st|sid c rc]; cbn [run_item q_sid] in *.
+  - unfold set_rc. destruct (nth_error (w_subs w) sid) as [sb|] eqn:Hs; [|reflexivity].
+    destruct (decode st) as [rc|]; [|reflexivity].
+    destruct (s_cb sb) as [c|]; [|simpl; apply (map_upd_same s_pid _ _ sb); [exact Hs|reflexivity]].
+    pose proof (invoke_pid sid (mkSub (s_pid sb) None (Some rc) (s_futs sb)) c rc) as P.
+    destruct (invoke sid _ c rc) as [s3 evs]. simpl in *.
+    apply (map_upd_same s_pid _ _ sb); [exact Hs|exact P].
+  - unfold late_call. destruct (nth_error (w_subs w) sid) as [sb|] eqn:Hs; [|reflexivity].
+    pose proof (invoke_pid sid sb c rc) as P. destruct (invoke sid sb c rc) as [s3 evs]. simpl in *.
+    apply (map_upd_same s_pid _ _ sb); [exact Hs|exact P].
 Qed.
